@@ -16,7 +16,9 @@ import (
 	"verifsim/seams"
 )
 
-var cnPool = []string{"", "GCE-uefi-signer-b", "signer-c"}
+// common names for signing keys: the default, plain ones, and two with characters a text format has
+// to escape (the name ends up in the manifest's object path)
+var cnPool = []string{"", "GCE-uefi-signer-b", "signer-c", `GCE "quoted" signer`, `GCE\tcb signer`}
 
 func init() {
 	core.Register(&core.Check{
@@ -204,6 +206,21 @@ func runC11(r *core.Run) {
 		}
 	}
 	sample := []string{"bootstrap: " + writeNames(a.Disk.Log)}
+	if r.Chance(3, "long-history?") {
+		// a long-lived authority: many rotations with long common names, the store reloaded after
+		// each (no prefixes: the per-write sweep is what the short histories are for)
+		n := 40 + r.Intn(80, "long-history-rotations")
+		for i := 0; i < n; i++ {
+			a.Now = a.Now.Add(30 * 24 * time.Hour)
+			if err, _ := a.Rotate(RotArgs{SignCN: fmt.Sprintf("GCE-uefi-signer-for-the-fleet-of-region-%02d-generation-%03d", i%7, i)}); err != nil {
+				r.HarnessErr = fmt.Sprintf("fault-free rotation %d of a long history failed: %v", i, err)
+				return
+			}
+			checkStore(r, a.Disk, fmt.Sprintf("long history after rotation %d of %d", i+1, n))
+		}
+		r.Probe("long-history")
+		hist += fmt.Sprintf(",long(%d)", n)
+	}
 	for i := 0; i < nrot; i++ {
 		a.Now = a.Now.Add(time.Duration(1+r.Intn(400, "days")) * 24 * time.Hour)
 		ra := RotArgs{SignCN: cnPool[r.Intn(len(cnPool), "rot-cn")]}
